@@ -185,6 +185,59 @@ def run(ctx):
             ctx.violation("C03:evaluates-differently", "`%s` gives %s but `%s` gives %s" % (src, kx, left_paren(operands, chosen), ky),
                           {"input": src, "reference_input": left_paren(operands, chosen), "observed": kx, "expected": ky,
                            "cli_command": "garden run -c 'println(string_repr(%s))'" % src})
+    block_operand_stage(ctx, exe, rng, 600 if ctx.thorough else 150)
+
+
+def block_operand_stage(ctx, exe, rng, n):
+    """(c) chains whose operands are if / match expressions with SEVERAL statements in the taken branch (the value of the
+    earlier statements is discarded): the chain's value is computed independently (left nest over the operand values)."""
+    def render(v, kind):
+        form = rng.randrange(5)
+        junk = rng.choice(["99", '"junk"', "[1, 2]", "junk9()"])
+        if form == 0:
+            return v
+        if form == 1:
+            return "if True { %s %s } else { %s }" % (junk, v, "0" if kind == "int" else '""')
+        if form == 2:
+            return "if False { %s } else { %s\n %s }" % ("0" if kind == "int" else '""', junk, v)
+        if form == 3:
+            return "match Some(1) { Some(q9) => { %s\n %s } None => { %s } }" % (junk, v, "0" if kind == "int" else '""')
+        return "(if True { %s %s } else { %s })" % (junk, v, "0" if kind == "int" else '""')
+    cases = []
+    for _ in range(n):
+        kind = rng.choice(["int", "int", "str"])
+        k = rng.randrange(2, 6)
+        if kind == "int":
+            vals = [rng.randrange(0, 9) for _ in range(k + 1)]
+            ops = [rng.choice(["+", "-", "*"]) for _ in range(k)]
+            acc = vals[0]
+            for o, v in zip(ops, vals[1:]):
+                acc = acc + v if o == "+" else acc - v if o == "-" else acc * v
+            want = str(acc)
+            txt = [str(v) for v in vals]
+        else:
+            vals = [rng.choice(["a", "b", "", "cd"]) for _ in range(k + 1)]
+            ops = ["^"] * k
+            want = '"%s"' % "".join(vals)
+            txt = ['"%s"' % v for v in vals]
+        rendered = [render(t, kind) for t in txt]
+        if rendered[0].startswith(("if", "match")):
+            rendered[0] = "(" + rendered[0] + ")"          # a statement-initial `if` would be a statement, not an operand
+        src = " ".join(sum(([o, x] for o, x in zip(ops, rendered[1:])), [rendered[0]]))
+        cases.append((src, want))
+    got = oracle.eval_stateless(exe, ["fun junk9() { 5 }\nlet r9 = %s\nr9" % c[0] for c in cases])
+    for (src, want), x in zip(cases, got):
+        v = (x or {}).get("value")
+        if v and "and the expression evaluated to " in v:
+            x = dict(x, value=v.split("and the expression evaluated to ", 1)[1].rstrip("."))
+        ctx.case({"eval_block_operands": src[:160]}, True)
+        ctx.stat("block-operand chain " + str((x or {}).get("kind")))
+        if (x or {}).get("kind") != "ok" or (x or {}).get("value") != want:
+            ctx.violation("C03:chain-with-block-operands-evaluates-wrongly",
+                          "`%s` gives %s, the left nest over the operand values gives %s" % (src, ((x or {}).get("kind"), (x or {}).get("value"), (x or {}).get("message", "")[:80]), want),
+                          {"input": "fun junk9() { 5 }\nlet r9 = %s\nr9" % src, "expected": want, "observed": x,
+                           "cli_command": "garden run <file with the input>"})
+            break
 
 
 def replay(ctx, rp):
